@@ -449,6 +449,8 @@ def validate_traces(report, module, base_cfg, traces, invs, props, tag, driver, 
     r = run_tlc(module, cfg, env=e, workers=16, tag=tag)
     os.unlink(path)
     n_events = sum(len(t["events"]) for t in traces)
+    report.cov["states"] += r.distinct
+    report.cov["transitions"] += r.generated
     report.cov["tlc_runs"].append({"name": module, "traces": len(traces), "events": n_events,
                                    "distinct_states": r.distinct, "wall_s": round(r.wall, 1)})
     if r.ok:
